@@ -47,15 +47,31 @@ inductive SpecStep : Abs → SpecLabel → Abs → Prop where
   | releaseSome (a k v n) : a k = .live v (n + 2) → SpecStep a (.release k) (setKey a k (.live v (n + 1)))
   | releaseLast (a k v) : a k = .live v 1 → SpecStep a (.release k) (setKey a k .absent)
 
+/-- what one entry in the map means: no value yet = its constructor is pending -/
+def entryState (E : Entry) : KeyState :=
+  match E.value with
+  | none => .pending E.refs.toNat
+  | some v => .live v E.refs.toNat
+
 /-- abstraction map: what the map of the concrete state means -/
 def absKey (s : G) (k : Nat) : KeyState :=
   match s.pool k with
   | none => .absent
-  | some e =>
-    match (s.ent e).value with
-    | none => .pending (s.ent e).refs.toNat
-    | some v => .live v (s.ent e).refs.toNat
+  | some e => entryState (s.ent e)
 
 def abs (s : G) : Abs := fun k => absKey s k
+
+/-- the atomic step a lock region amounts to (computed in the state before the region) -/
+def specLabel (s : G) : Label → SpecLabel
+  | .lnLookup k => match s.pool k with
+    | none => .begin k
+    | some _ => .join k
+  | .ctorOk e => .commit (s.ent e).key s.nextVal
+  | .lnFailDel e => .abort (s.ent e).key
+  | .lsLookup k => match s.pool k with
+    | none => .store k s.nextVal
+    | some _ => .join k
+  | .del1 k _ => .release k
+  | _ => .tau
 
 end CaddyModel.C04
